@@ -29,10 +29,11 @@ def finisher(rng, tag, kinds):
         return "Q", None, None
     body = body_bytes("w" + tag, rng.choice([4, 300, 2000]))
     raw = b"HTTP/1.1 299 Raw\r\nContent-Length: %d\r\n\r\n" % len(body) + body
-    return {"raw": "W", "rawx": "X", "rawflush": "Y", "rawflushfirst": "F"}[k] + hx(raw), "299", hx(body)
+    return {"raw": "W", "rawx": "X", "rawflush": "Y", "rawflushfirst": "F", "rawvec": "V"}[k] + hx(raw), "299", hx(body)
 
 
-ALL_KINDS = ["respond", "respond", "chunked", "drop", "panic", "raw", "rawx", "rawempty", "rawflush", "rawflush", "rawpanic", "rawflushfirst"]
+ALL_KINDS = ["respond", "respond", "chunked", "drop", "panic", "raw", "rawx", "rawempty", "rawflush", "rawflush", "rawpanic", "rawflushfirst",
+             "rawvec", "rawvec"]
 
 
 def build(rng, i, n, order, grace, kinds=ALL_KINDS, transport="u", tail=None):
